@@ -12,11 +12,13 @@ import io
 from vtlib.xhfix import conc
 
 import mdtraj.formats.arc as _arc
+import mdtraj.formats.gro as _gro
 import mdtraj.formats.lammpstrj as _lmp
 import mdtraj.formats.mdcrd as _mdcrd
 import mdtraj.formats.xyzfile as _xyz
 
 N_ATOMS = 3
+_GROCls = _gro.GroTrajectoryFile
 _MDCRDCls, _XYZCls, _LMPCls, _ARCCls = (_mdcrd.MDCRDTrajectoryFile, _xyz.XYZTrajectoryFile, _lmp.LAMMPSTrajectoryFile,
                                         _arc.ArcTrajectoryFile)   # captured: harnesses may rebind the module globals
 MAXF = 8
@@ -54,6 +56,15 @@ def _arc_frame(i):
     return s
 
 
+def _gro_frame(i):
+    s = "frame %d, t= %.1f\n%5d\n" % (i, 2.0 * i, N_ATOMS)
+    for j in range(N_ATOMS):
+        s += "%5d%-5s%5s%5d%8.3f%8.3f%8.3f\n" % (1, "ALA", "C%d" % j, j + 1, i, j, 0)
+    s += "%10.5f%10.5f%10.5f\n" % (5.0 + i, 6.0, 7.0)
+    return s
+
+
+_GRO = [_gro_frame(i) for i in range(MAXF)]
 _MDCRD = {b: [_mdcrd_frame(i, b) for i in range(MAXF)] for b in (False, True)}
 _XYZ = [_xyz_frame(i) for i in range(MAXF)]
 _LMP = [_lmp_frame(i) for i in range(MAXF)]
@@ -131,6 +142,18 @@ def mk_arc(total, pos):
     f._fh.seek(sum(len(x) for x in frames[:pos]))
     f._frame_index = pos
     f._line_counter = pos * (1 + N_ATOMS)
+    f._store = st
+    return f
+
+
+def mk_gro(total, pos, top=None):
+    total, pos = conc(total), conc(pos)
+    frames = _GRO[:total]
+    st = Store("".join(frames), False)
+    f = object.__new__(_GROCls)
+    f._open, f._mode, f._frame_index, f.n_atoms, f.topology = True, "r", 0, N_ATOMS, top
+    f._file = st.open("mem.gro")
+    f._file.seek(sum(len(x) for x in frames[:pos]))
     f._store = st
     return f
 
